@@ -29,7 +29,84 @@ fn drops(out: &mut Vec<i128>, start: usize, all: &mut Vec<i64>) {
     all.extend(d);
 }
 
+/// [N, bomb, 23] drop the array itself; [N, bomb, 24|26, p] ArrayBuilder / IntrusiveArrayBuilder
+/// with p slots written; [N, bomb, 25, p] ArrayConsumer with p elements consumed
+fn teardown<N: ArrayLength>(case: &[i128]) -> (Vec<i128>, Vec<String>) {
+    use generic_array::internals::{ArrayBuilder, ArrayConsumer, IntrusiveArrayBuilder};
+    let n = case[0] as usize;
+    let bomb = case[1] as i64;
+    let p = case.get(3).copied().unwrap_or(0) as usize;
+    track::reset(1000);
+    let mut out = vec![];
+    let mut all = vec![];
+    let start;
+    let r = match case[2] {
+        23 => {
+            let arr: GenericArray<Tr, N> = GenericArray::generate(|i| Tr::new(i as i64));
+            track::arm_drop(if bomb >= 0 { Some(bomb) } else { None });
+            start = track::log_len();
+            catch(move || drop(arr))
+        }
+        24 => unsafe {
+            let mut b = ArrayBuilder::<Tr, N>::new();
+            {
+                let (it, position) = b.iter_position();
+                for (i, dst) in it.enumerate().take(p.min(n)) {
+                    dst.write(Tr::new(i as i64));
+                    *position += 1;
+                }
+            }
+            track::arm_drop(if bomb >= 0 { Some(bomb) } else { None });
+            start = track::log_len();
+            catch(move || drop(b))
+        },
+        26 => unsafe {
+            let mut storage = GenericArray::<Tr, N>::uninit();
+            let mut b = IntrusiveArrayBuilder::new(&mut storage);
+            {
+                let (it, position) = b.iter_position();
+                for (i, dst) in it.enumerate().take(p.min(n)) {
+                    dst.write(Tr::new(i as i64));
+                    *position += 1;
+                }
+            }
+            track::arm_drop(if bomb >= 0 { Some(bomb) } else { None });
+            start = track::log_len();
+            catch(move || drop(b))
+        },
+        _ => unsafe {
+            let arr: GenericArray<Tr, N> = GenericArray::generate(|i| Tr::new(i as i64));
+            let mut c = ArrayConsumer::new(arr);
+            {
+                let (it, position) = c.iter_position();
+                for src in it.take(p.min(n)) {
+                    std::mem::forget(std::ptr::read(src));
+                    *position += 1;
+                }
+            }
+            track::arm_drop(if bomb >= 0 { Some(bomb) } else { None });
+            start = track::log_len();
+            catch(move || drop(c))
+        },
+    };
+    out.push(if r.is_ok() { 5 } else { 6 });
+    drops(&mut out, start, &mut all);
+    track::arm_drop(None);
+    let mut oracle = vec![];
+    let mut sorted = all.clone();
+    sorted.sort();
+    for w in sorted.windows(2) {
+        if w[0] == w[1] {
+            oracle.push(format!("element {} dropped twice", w[0]));
+        }
+    }
+    (out, oracle)
+}
+
 fn run<N: ArrayLength>(case: &[i128]) -> (Vec<i128>, Vec<String>) {
+    if case.len() >= 3 && (23..=26).contains(&case[2]) {
+        return teardown::<N>(case);
+    }
     let n = case[0] as i64;
     let bomb = case[1] as i64;
     track::reset(1000);
@@ -165,6 +242,20 @@ fn main() {
                             do_case(case);
                         }
                     }
+                }
+            }
+        }
+    }
+    // teardown of the array itself and of the builder / consumer types at every position,
+    // with every choice of the panicking element
+    for n in 0..=max_n {
+        for bomb in -1..(n as i128) {
+            dist("teardown");
+            do_case(vec![n as i128, bomb, 23]);
+            for p in 0..=n {
+                for kind in [24i128, 25, 26] {
+                    dist("teardown");
+                    do_case(vec![n as i128, bomb, kind, p as i128]);
                 }
             }
         }
